@@ -2,7 +2,8 @@
   FspecRepl2 — C05 for `replace`, part 2: what a successful `replace(a, b)` has checked
   (`ReplArgs`) and the three ways it continues: `remove(a)` when `b` already stands next to `a`;
   otherwise `remove_subtree(a)` followed by `insert_after(previous, b)` and one more
-  consolidation, or by `prepend(parent, b)` when `a` has no previous sibling.
+  consolidation (of the node that followed `a` with whatever now stands before it), or by
+  `prepend(parent, b)` when `a` has no previous sibling.
 -/
 import XotModel.Lemmas.FspecSame
 
@@ -68,7 +69,10 @@ theorem replace_unpack {f : Forest} {a b : Nat} (inv : f.Inv) (hok : (f.replace 
             (match prevOf l A with
              | some p =>
                (match (f.editAt (some q) (dropTop a)).insertAfter p b with
-                | (f2, .ok) => ((f2.removeConsolidate (some p) (f2.nextSibling p)).1, .ok)
+                | (f2, .ok) =>
+                  (match nextOf r A with
+                   | some n => ((f2.removeConsolidate (f2.prevSibling n) (some n)).1, .ok)
+                   | none => (f2, .ok))
                 | (f2, r) => (f2, r))
              | none => (f.editAt (some q) (dropTop a)).prepend q b)) := by
   have nd := inv.nodup
